@@ -199,6 +199,10 @@ var steadySeq bool
 // failFirst[name]: the mocker thread of this target starts with a refused apply (scenario option).
 var failFirst = map[string]bool{}
 
+// failByPanic: the refused apply is one that panics while the trampoline is built (LeafT) rather than one that
+// is turned down with an error before anything is attempted (LoopT).
+var failByPanic bool
+
 // mockerBody is the per-builder script: apply a callback, call, re-stub with Return, call,
 // reset, call. Observations are appended to out.
 func mockerBody(tg *target, out *[]obs, yield func(string)) {
@@ -207,8 +211,11 @@ func mockerBody(tg *target, out *[]obs, yield func(string)) {
 	if failFirst[tg.name] {
 		// this builder first makes an apply that goom has to refuse (origin placeholder on a function
 		// whose prologue cannot be relocated) and recovers from it, as a test using assert.Panics would
-		o := t.OLoopT
-		_, refused := vk.Try(func() { b.Func(t.LoopT).Origin(&o).Apply(func(a int) int { return o(a) + 1 }) })
+		o, fn := t.OLoopT, t.LoopT
+		if failByPanic {
+			o, fn = t.OLeafT, t.LeafT
+		}
+		_, refused := vk.Try(func() { b.Func(fn).Origin(&o).Apply(func(a int) int { return o(a) + 1 }) })
 		want := 0
 		if refused {
 			want = 1
@@ -297,7 +304,8 @@ func scenario(sn Scn) (sched.Scenario, func() []obs) {
 		forceClean()
 		steadySeq = sn.Steady == "sequence"
 		failFirst = map[string]bool{}
-		if sn.Steady == "fail-first" {
+		failByPanic = sn.Steady == "panic-first"
+		if sn.Steady == "fail-first" || sn.Steady == "panic-first" {
 			failFirst[sn.Mockers[0]] = true
 		}
 		b0 = installSteady()
@@ -410,6 +418,7 @@ func scenarios(thorough bool) []Scn {
 		{"generic+plain/2mockers", []string{"G1", "F1"}, 0, 0, ""},
 		{"2generic", []string{"G1", "G2"}, 0, 0, ""},
 		{"refused-apply+plain/2mockers", []string{"F1", "F2"}, 1, 1, "fail-first"},
+		{"panicking-apply+plain/2mockers", []string{"F1", "F2"}, 1, 1, "panic-first"},
 	}
 	if thorough {
 		s = append(s,
@@ -430,6 +439,9 @@ func warmUp() {
 	}
 	failFirst = map[string]bool{"F1": true}
 	mockerBody(targets["F1"], &sink, func(string) {})
+	failByPanic = true
+	mockerBody(targets["F1"], &sink, func(string) {})
+	failByPanic = false
 	failFirst = map[string]bool{}
 	b0 := installSteady()
 	callerBody(0, 1, &sink, func(string) {})
